@@ -9,6 +9,7 @@ import Zed.Model.ZsonGuard
 
   `(C02 fmt <scope> <persist> (T V) …)`    → `(ast …)`            scope = record | format; persist = nopersist | (persist hexname…)
   `(C02 analyze <scope> ast …)`            → `((ok T V)|(err e) …)` scope = stream | value
+  `(C02 analyzeil (r ast) …)`              → like analyze, reader r ∈ ℕ has its own name table, all share one context
   `(C02 rt <scope> <persist> (T V) …)`     → `(ok|changed|(err e) …)` model round trip through a stream reader
   `(C02 guard (T V))`                      → the theorem's guard: plain=b wfTy=b wfVal=b bareEmpty=b
   `(C02 guardnamed (T V))`                 → 1 | 0: the guard of zson_roundtrip_value_named_top_partial (fresh formatter)
@@ -253,6 +254,20 @@ def analyzeSeq (fresh : Bool) : AState → List AVal → List (Except Err TV)
     | .ok (st1, tv) => .ok tv :: analyzeSeq fresh st1 r
     | .error e => .error e :: analyzeSeq fresh st r
 
+/-- several readers (each with its own analyzer table) interleaved on one context. -/
+def analyzeInterleaved : List (Nat × List (Name × Ty)) → List (Name × Ty) → List (Nat × AVal) → List (Except Err TV)
+  | _, _, [] => []
+  | tabs, ctx, (r, a) :: rest =>
+    let names := ((tabs.find? (·.1 == r)).map (·.2)).getD []
+    match analyzeTop { names := names, ctxdefs := ctx } a with
+    | .ok (st1, tv) =>
+      .ok tv :: analyzeInterleaved ((r, st1.names) :: tabs.filter (·.1 != r)) st1.ctxdefs rest
+    | .error e => .error e :: analyzeInterleaved tabs ctx rest
+
+def decStep : Sexp → Option (Nat × AVal)
+  | .list [.atom r, a] => do pure (← r.toNat?, ← decAVal a)
+  | _ => none
+
 def showRes : Except Err TV → String
   | .ok tv => s!"(ok {canonTV tv})"
   | .error e => s!"(err {showErr e})"
@@ -286,6 +301,10 @@ def handle : List Sexp → String
     | some asts, "stream" => "(" ++ " ".intercalate ((analyzeSeq false {} asts).map showRes) ++ ")"
     | some asts, "value" => "(" ++ " ".intercalate ((analyzeSeq true {} asts).map showRes) ++ ")"
     | _, _ => "bad-op"
+  | .atom "analyzeil" :: steps =>
+    match steps.mapM decStep with
+    | some steps => "(" ++ " ".intercalate ((analyzeInterleaved [] [] steps).map showRes) ++ ")"
+    | none => "bad-op"
   | .atom "rt" :: .atom scope :: p :: tvs =>
     match decPersist p, tvs.mapM decTV, scope with
     | some p, some tvs, "record" => "(" ++ " ".intercalate (rtSeq true (initF p) tvs) ++ ")"
